@@ -75,7 +75,7 @@ pub fn a85_encode(data: &[u8], t: &mut Tape) -> Vec<u8> {
         out.push(c);
         col += 1;
         if ws && (col % 60 == 0 || t.byte() > 245) {
-            out.push([b'\n', b' ', b'\r', b'\t'][t.choose(4)]);
+            out.push([b'\n', b' ', b'\r', b'\t', 0x0c, 0][t.choose(6)]);
         }
     };
     let mut chunks = data.chunks_exact(4);
